@@ -171,7 +171,7 @@ theorem mirror_iterFrom (r : Range) (hs : r.step < 0) : ∀ (fuel : Nat) (cur : 
 theorem mirror_lenFrom (r : Range) (hs : r.step < 0) (cur : Int) : r.mirror.lenFrom (-cur) = r.lenFrom cur := by
   have h1 : ¬ (0 < r.step) := by omega
   have h2 : 0 < -r.step := by omega
-  simp only [Range.lenFrom, Range.len, Range.mirror, ceilDiv, h1, h2, if_true, if_false, gt_iff_lt]
+  simp only [Range.lenFrom, Range.len, Range.mirror, ceilDiv, h1, h2, if_true, if_false]
   have e1 : -(-r.stop - -cur) = r.stop - cur := by ring
   have e2 : (-r.stop - -cur) = -(r.stop - cur) := by ring
   have hz : (-(r.stop - cur)) % (-r.step) = 0 ↔ (r.stop - cur) % r.step = 0 := by
@@ -194,7 +194,7 @@ theorem iterFrom_progression_any (r : Range) (hs : r.step ≠ 0) (fuel : Nat) (c
     have hp : 0 < r.mirror.step := by simp [Range.mirror]; omega
     have := iterFrom_progression r.mirror hp fuel (-cur) _ hm
     rw [mirror_lenFrom r hneg] at this
-    have hl : l = (l.map (fun x => -x)).map (fun x => -x) := by simp [List.map_map, Function.comp]
+    have hl : l = (l.map (fun x => -x)).map (fun x => -x) := by simp [List.map_map]
     rw [hl, this, List.map_map]
     apply List.map_congr_left
     intro k _
